@@ -282,6 +282,17 @@ func init() {
 				break
 			}
 		}
+		// the caller's side: a fixed-size prefix pulled first (io.ReadFull style), then io.Copy for the rest
+		for _, k := range []int{1, 16, 999} {
+			consumePattern = k
+			o := decodeStack(stack, c, bytes.NewReader(input), 4096)
+			consumePattern = 0
+			if o.ok != base.ok || (o.ok && (!bytes.Equal(o.out, base.out) || o.extra != base.extra)) ||
+				(!o.ok && !(bytes.HasPrefix(o.out, base.out) || bytes.HasPrefix(base.out, o.out))) {
+				fs = append(fs, Failure{Kind: "oracle", Key: "caller-read-pattern-dependent-" + stack, Desc: fmt.Sprintf("a %d-byte prefix then io.Copy gives ok=%v %d bytes (%s); a read loop gives ok=%v %d bytes (%s)", k, o.ok, len(o.out), o.errClass, base.ok, len(base.out), base.errClass)})
+				break
+			}
+		}
 		// model denotation for the armor stack
 		if stack == "dearmor" {
 			m := strings.Join(h.rn.Call("dearmor", c.A["chk"], hx(input)), " ")
